@@ -5,6 +5,18 @@
 #include <complex>
 #include <algorithm>
 #include <Spectra/Util/SelectionRule.h>
+#include <Spectra/SymEigsSolver.h>
+#include <Spectra/SymEigsShiftSolver.h>
+#include <Spectra/HermEigsSolver.h>
+#include <Spectra/GenEigsSolver.h>
+#include <Spectra/GenEigsRealShiftSolver.h>
+#include <Spectra/GenEigsComplexShiftSolver.h>
+#include <Spectra/MatOp/DenseSymMatProd.h>
+#include <Spectra/MatOp/DenseHermMatProd.h>
+#include <Spectra/MatOp/DenseSymShiftSolve.h>
+#include <Spectra/MatOp/DenseGenMatProd.h>
+#include <Spectra/MatOp/DenseGenRealShiftSolve.h>
+#include <Spectra/MatOp/DenseGenComplexShiftSolve.h>
 
 using Spectra::SortRule;
 using Eigen::Index;
@@ -206,6 +218,7 @@ static void build_cases(const vf::Ctx& ctx)
         }
     const int nrand = ctx.thorough ? 2000 : 200;
     for (int i = 0; i < nrand; i++) g_cases.push_back({2 + (i % 2), i % 3, 0, i, 1});
+    g_cases.push_back({9, 0, 0, 0, 1});   // the solvers' own rejection of undefined rules
 }
 
 long vf_ncases(const vf::Ctx& ctx) { build_cases(ctx); return (long) g_cases.size(); }
@@ -293,10 +306,63 @@ static void run_cplx_rand(vf::Ctx& ctx, const char* tname)
     }
 }
 
+// "... and by the solvers": every one of the nine rules as selection and as sorting argument of every solver class; the ones that are not defined for
+// the solver's value type must be rejected with std::invalid_argument, the defined ones accepted.
+template <class Solver>
+static void solver_rules(vf::Ctx& ctx, const char* name, Solver& es, bool general)
+{
+    using Spectra::SortRule;
+    static const SortRule ALL[9] = {SortRule::LargestMagn, SortRule::LargestReal, SortRule::LargestImag, SortRule::LargestAlge, SortRule::SmallestMagn,
+                                    SortRule::SmallestReal, SortRule::SmallestImag, SortRule::SmallestAlge, SortRule::BothEnds};
+    static const char* NAME[9] = {"LargestMagn", "LargestReal", "LargestImag", "LargestAlge", "SmallestMagn", "SmallestReal", "SmallestImag", "SmallestAlge", "BothEnds"};
+    auto defined = [&](int i, bool as_sorting) {
+        const bool alge = (i == 3 || i == 7), magn = (i == 0 || i == 4), reim = (i == 1 || i == 2 || i == 5 || i == 6), both = (i == 8);
+        if (general) return magn || reim;
+        return magn || alge || (both && !as_sorting);
+    };
+    for (int pos = 0; pos < 2; pos++)
+        for (int i = 0; i < 9; i++)
+        {
+            bool threw = false, other = false;
+            try
+            {
+                es.init();
+                if (pos == 0) es.compute(ALL[i], 50, 1e-8);
+                else es.compute(general ? SortRule::LargestMagn : SortRule::LargestAlge, 50, 1e-8, ALL[i]);
+            }
+            catch (const std::invalid_argument&) { threw = true; }
+            catch (...) { other = true; }
+            const bool def = defined(i, pos == 1);
+            ctx.count("solver_rule_calls");
+            if (other || threw == def)
+                ctx.violation(std::string(name) + (def ? "/defined-rule-rejected" : "/undefined-rule-accepted") + (pos == 0 ? "/as-selection" : "/as-sorting"),
+                              vf::J().kv("solver", name).kv("rule", NAME[i]).kv("position", pos == 0 ? "selection" : "sorting").kv("threw_invalid_argument", threw).kv("threw_other", other).str());
+        }
+}
+
+static void run_solver_rules(vf::Ctx& ctx)
+{
+    const int n = 12;
+    Eigen::MatrixXd G(n, n);
+    for (int j = 0; j < n; j++) for (int i = 0; i < n; i++) G(i, j) = std::sin(1.0 + 3.7 * i + 1.3 * j * j);
+    const Eigen::MatrixXd S = G + G.transpose();
+    Eigen::MatrixXcd H = S.cast<std::complex<double>>();
+    for (int j = 0; j < n; j++) for (int i = 0; i < j; i++) { H(i, j) += std::complex<double>(0, G(i, j)); H(j, i) = std::conj(H(i, j)); }
+    { Spectra::DenseSymMatProd<double> op(S); Spectra::SymEigsSolver<Spectra::DenseSymMatProd<double>> es(op, 3, 8); solver_rules(ctx, "SymEigsSolver", es, false); }
+    { Spectra::DenseHermMatProd<std::complex<double>> op(H); Spectra::HermEigsSolver<Spectra::DenseHermMatProd<std::complex<double>>> es(op, 3, 8); solver_rules(ctx, "HermEigsSolver", es, false); }
+    { Spectra::DenseSymShiftSolve<double> op(S); Spectra::SymEigsShiftSolver<Spectra::DenseSymShiftSolve<double>> es(op, 3, 8, 0.37); solver_rules(ctx, "SymEigsShiftSolver", es, false); }
+    { Spectra::DenseGenMatProd<double> op(G); Spectra::GenEigsSolver<Spectra::DenseGenMatProd<double>> es(op, 3, 8); solver_rules(ctx, "GenEigsSolver", es, true); }
+    { Spectra::DenseGenRealShiftSolve<double> op(G); Spectra::GenEigsRealShiftSolver<Spectra::DenseGenRealShiftSolve<double>> es(op, 3, 8, 0.37); solver_rules(ctx, "GenEigsRealShiftSolver", es, true); }
+    { Spectra::DenseGenComplexShiftSolve<double> op(G); Spectra::GenEigsComplexShiftSolver<Spectra::DenseGenComplexShiftSolve<double>> es(op, 3, 8, 0.37, 0.21); solver_rules(ctx, "GenEigsComplexShiftSolver", es, true); }
+    ctx.count("evals");
+    ctx.nontriv("solver-rules");
+}
+
 void vf_run_case(vf::Ctx& ctx, long idx)
 {
     build_cases(ctx);
     const CaseDesc& c = g_cases[idx];
+    if (c.kind == 9) { run_solver_rules(ctx); return; }
     switch (c.kind)
     {
         case 0:
